@@ -1,6 +1,6 @@
 (** C09 - executable model of the transformation machinery (no proofs here).
 
-    Transcribed from /repo/src/classy_blocks (tree with the fixes C09-1 .. C09-6 applied):
+    Transcribed from /repo/src/classy_blocks (tree with the fixes C09-1 .. C09-7 applied):
       util/functions.py      unit_vector, rotation_matrix, rotate, scale, mirror_matrix, mirror,
                              divide_arc/arc_mid, polyline_length
       construct/point.py     Point.translate/rotate/scale/mirror
@@ -104,8 +104,9 @@ Inductive role := RPos | RArr | RAxis.
 
 (** one call received by a leaf object:
     VGiven: the transformation as passed down; VZero: the same with the origin replaced by (0,0,0);
-    VNeg: scale(-1, (0,0,0));  VRev: the rows of an array are reversed (not a method call) *)
-Inductive vop := VGiven | VZero | VNeg | VRev.
+    VNeg: scale(-1, (0,0,0));  VRev: the rows of an array are reversed (not a method call);
+    VSense: the scalar angle of an Angle changes sign (not a method call; the axis vector keeps its value) *)
+Inductive vop := VGiven | VZero | VNeg | VRev | VSense.
 
 Definition apply_vop (t : tf) (o : vop) (c : cell) : cell :=
   match o, c with
@@ -117,6 +118,7 @@ Definition apply_vop (t : tf) (o : vop) (c : cell) : cell :=
   | VNeg, CArray l => CArray (map (fun p => f_scale p (-1) vzero) l)
   | VRev, CArray l => CArray (rev l)
   | VRev, CPoint p => CPoint p
+  | VSense, c => c
   end.
 
 Definition visit := (nat * vop)%type.
@@ -157,9 +159,10 @@ Definition leaf_visits (k : tkind) (rl : role * nat) : list visit :=
 
 Definition visits (k : tkind) (n : node) : list visit := flat_map (leaf_visits k) (leaves n).
 
-(** Operation.invert: the side edges are reversed (Angle: axis flipped; Spline/PolyLine: rows reversed) *)
+(** Operation.invert: the side edges are reversed (EdgeData.reverse: Angle: sign of the angle flipped;
+    Spline/PolyLine: rows reversed) *)
 Definition reverse_visits (n : node) : list visit :=
-  flat_map (fun rl : role * nat => match fst rl with RAxis => [(snd rl, VNeg)] | RArr => [(snd rl, VRev)] | RPos => [] end) (leaves n).
+  flat_map (fun rl : role * nat => match fst rl with RAxis => [(snd rl, VSense)] | RArr => [(snd rl, VRev)] | RPos => [] end) (leaves n).
 
 (** Operation.mirror = ElementBase.mirror ; invert.   Every operation met on the way down uses its own
     [mirror] (a shape, stack or assembly delegates to its parts' methods). *)
@@ -182,12 +185,14 @@ Fixpoint swap_tree (n : node) : node :=
 Definition method_tree (k : tkind) (n : node) : node :=
   match k with KMirror => swap_tree n | _ => n end.
 
-(** entity.transform([t]) : the *parts* of the entity receive the method call; the entity's own override
-    (Operation.mirror) is not used at the top level *)
+(** entity.transform([t]) : the *parts* of the entity receive the method call; the entity's own overrides
+    (Operation.mirror, Angle.translate/rotate/scale/mirror) are not used at the top level: the only part of
+    an Angle is its axis vector, an ordinary Point *)
 Definition parts_of (n : node) : list node :=
   match n with
   | NGroup l => l
   | NOper b t s => b :: t :: s
+  | NAngle i => [NPoint i]
   | x => [x]
   end.
 Definition list_visits (k : tkind) (n : node) : list visit :=
@@ -209,8 +214,8 @@ Fixpoint run_kinds (meth : bool) (ks : list tkind) (n : node) : list visit * nod
   end.
 
 (** comparison helpers for the correspondence (the implementation's call log carries no VRev) *)
-Definition vop_code (o : vop) : nat := match o with VGiven => 0 | VZero => 1 | VNeg => 2 | VRev => 3 end.
-Definition observable (v : visit) : bool := negb (Nat.eqb (vop_code (snd v)) 3).
+Definition vop_code (o : vop) : nat := match o with VGiven => 0 | VZero => 1 | VNeg => 2 | VRev => 3 | VSense => 4 end.
+Definition observable (v : visit) : bool := Nat.ltb (vop_code (snd v)) 3.
 Definition visit_codes (vs : list visit) : list (nat * nat) :=
   map (fun v : visit => (fst v, vop_code (snd v))) (filter observable vs).
 Fixpoint codes_eqb (a b : list (nat * nat)) : bool :=
